@@ -585,7 +585,22 @@ func (p *Parser) ParsingIter() iter.Seq[*ParserReply] {
 		// allow ParseExpression to yield when deep
 		// down the stack (half way through a parse)
 		// and we need more input.
-		p.yield = yield
+		//
+		// Once the consumer has left its loop (a yield returned
+		// false) nothing more may be sent: Go panics on a range
+		// function that continues after that. A pause point that
+		// sees the consumer leave unwinds with SexpEnd, which is
+		// also how a finished text ends, so remember it here.
+		stopped := false
+		p.yield = func(reply *ParserReply) bool {
+			if stopped {
+				return false
+			}
+			if !yield(reply) {
+				stopped = true
+			}
+			return !stopped
+		}
 
 		var expr Sexp
 		var err error
@@ -593,6 +608,9 @@ func (p *Parser) ParsingIter() iter.Seq[*ParserReply] {
 		for {
 			expr, err = p.ParseExpression(depth0)
 			if err != nil || expr == SexpEnd {
+				if stopped {
+					return
+				}
 				p.sendMe.Err = err
 				yield(p.sendMe)
 				return
